@@ -85,13 +85,26 @@ Proof.
     + splits; auto; try lia.
 Qed.
 
-Definition loop_post (mrg : bool) (u u' : fu) (sp : spoll) : Prop :=
-  total (groups u') <= total (groups u)
+Definition loop_post_n (mrg : bool) (tu tu' : nat) (sp : spoll) : Prop :=
+  tu' <= tu
   /\ match sp with
-     | SItem _ _ => mrg = false -> total (groups u') = pred (total (groups u)) /\ 0 < total (groups u)
-     | SNone => total (groups u') = 0
-     | SPending => total (groups u') <> 0
-     end.
+     | SItem _ _ => mrg = false -> tu' = pred tu /\ 0 < tu
+     | SNone => tu' = 0
+     | SPending => tu' <> 0
+     end
+  /\ (mrg = false -> match sp with SItem _ _ => True | _ => tu' = tu end).
+
+Definition loop_post (mrg : bool) (u u' : fu) (sp : spoll) : Prop :=
+  loop_post_n mrg (total (groups u)) (total (groups u')) sp.
+
+Lemma lpn_trans mrg tu tm t' sp :
+  loop_post_n mrg tm t' sp -> tm <= tu -> (mrg = false -> tm = tu) -> loop_post_n mrg tu t' sp.
+Proof.
+  intros (A & B & C) Hle Heq. unfold loop_post_n. splits.
+  - lia.
+  - destruct sp; auto. intros Hm. specialize (B Hm). specialize (Heq Hm). lia.
+  - intros Hm. specialize (C Hm). specialize (Heq Hm). destruct sp; auto; lia.
+Qed.
 
 (** the round-robin loop *)
 Lemma fu_loop_spec mrg n u t w :
@@ -108,8 +121,8 @@ Proof.
       - symmetry; apply total_zero_all.
       - rewrite Nat.eqb_eq, O2 by reflexivity. tauto. }
     destruct (if mrg then forallb (fun g => Nat.eqb (fub_len g) 0) (groups u) else Nat.eqb (rem u) 0) eqn:E.
-    + splits; auto. split; auto. apply Hz; reflexivity.
-    + splits; auto. split; auto. intros Hc. apply Hz in Hc. discriminate.
+    + splits; auto. unfold loop_post, loop_post_n. splits; auto. apply Hz; reflexivity.
+    + splits; auto. unfold loop_post, loop_post_n. splits; auto. intros Hc. apply Hz in Hc. discriminate.
   - cbn [fu_loop].
     set (cur := if Nat.leb (length (groups u)) (cursor u) then 0 else cursor u).
     assert (Hcur : cur < length (groups u)).
@@ -152,11 +165,11 @@ Proof.
       specialize (IH (set_groups u (upd (groups u) cur g') (S cur)) w1).
       simpl in IH. rewrite Hblks_upd in IH. specialize (IH A Hok1).
       destruct (fu_loop P mrg n (set_groups u (upd (groups u) cur g') (S cur)) t w1) as [[u' sp'] w'].
-      destruct IH as (I1 & I2 & I3 & I4 & I5).
+      destruct IH as (I1 & I2 & I3 & I4).
       { rewrite Hupd_eq. destruct l1; discriminate. }
-      simpl in I4, I5. rewrite Hupd_eq, total_app in I4, I5. simpl in I4, I5.
-      splits; auto. split; [lia|].
-      destruct sp'; auto. intros Hm. specialize (I5 Hm). specialize (F2 Hm). lia.
+      unfold loop_post in *. simpl in I4. rewrite Hupd_eq, total_app in I4. simpl in I4.
+      splits; auto. eapply lpn_trans; [exact I4| |]; [lia|].
+      intros Hm. specialize (F2 Hm). lia.
     + (* this group is finished *)
       destruct F as [F1 F2]. rewrite Hrm_eq.
       destruct (l1 ++ l2) as [|g0 gs0] eqn:Hgs.
@@ -166,7 +179,7 @@ Proof.
         -- eapply winv_own_ext; [|exact A]. intros b. rewrite Hsplit. unfold blks; simpl. rewrite C. reflexivity.
         -- constructor; simpl; auto. intros Hm. rewrite O2 by auto. rewrite Hsplit. simpl. specialize (F2 Hm). lia.
         -- discriminate.
-        -- split; simpl; lia.
+        -- unfold loop_post, loop_post_n. simpl. splits; try lia. intros Hm. specialize (F2 Hm). lia.
       * rewrite <- Hgs.
         destruct (Nat.eqb_spec cur (length (l1 ++ l2))) as [Hlast|Hnl].
         -- (* it was the last one: keep the largest allocation, go on from the front *)
@@ -182,11 +195,11 @@ Proof.
            rewrite <- Hupd_eq, Hblks_upd in IH. specialize (IH A).
            rewrite Hupd_eq in IH. specialize (IH Hok1).
            destruct (fu_loop P mrg n (set_groups u (l1 ++ [g']) 0) t w1) as [[u' sp'] w'].
-           destruct IH as (I1 & I2 & I3 & I4 & I5).
+           destruct IH as (I1 & I2 & I3 & I4).
            { destruct l1; discriminate. }
-           simpl in I4, I5. rewrite total_app in I4, I5. simpl in I4, I5.
-           splits; auto. split; [lia|].
-           destruct sp'; auto. intros Hm. specialize (I5 Hm). specialize (F2 Hm). lia.
+           unfold loop_post in *. simpl in I4. rewrite total_app in I4. simpl in I4.
+           splits; auto. eapply lpn_trans; [exact I4| |]; [lia|].
+           intros Hm. specialize (F2 Hm). lia.
         -- (* a group in the middle: discard it *)
            assert (Hw2 : winv (cnt (blks (l1 ++ l2))) None (fub_drop g' w1)).
            { apply winv_fub_drop. eapply winv_own_ext; [|exact A].
@@ -201,11 +214,11 @@ Proof.
            specialize (IH (set_groups u (l1 ++ l2) cur) (fub_drop g' w1)). simpl in IH.
            specialize (IH Hw2 Hok1).
            destruct (fu_loop P mrg n (set_groups u (l1 ++ l2) cur) t (fub_drop g' w1)) as [[u' sp'] w'].
-           destruct IH as (I1 & I2 & I3 & I4 & I5).
+           destruct IH as (I1 & I2 & I3 & I4).
            { rewrite Hgs; discriminate. }
-           simpl in I4, I5. rewrite total_app in I4, I5.
-           splits; auto. split; [lia|].
-           destruct sp'; auto. intros Hm. specialize (I5 Hm). specialize (F2 Hm). lia.
+           unfold loop_post in *. simpl in I4. rewrite total_app in I4.
+           splits; auto. eapply lpn_trans; [exact I4| |]; [lia|].
+           intros Hm. specialize (F2 Hm). lia.
     + (* an item *)
       splits; simpl.
       * rewrite Hblks_upd. exact A.
@@ -215,7 +228,7 @@ Proof.
            rewrite Htot, total_app. simpl. lia.
         -- apply Forall_app; split; auto.
       * rewrite Hupd_eq. destruct l1; discriminate.
-      * split; simpl; rewrite Hupd_eq, total_app; simpl; [lia|].
+      * unfold loop_post, loop_post_n. simpl. rewrite Hupd_eq, total_app. simpl. splits; auto; [lia|].
         intros Hm. destruct (F Hm) as [F1 F2]. lia.
 Qed.
 
@@ -226,7 +239,7 @@ Lemma fu_poll_next_spec mrg u t w :
 Proof.
   intros Hw Hok. unfold fu_poll_next.
   destruct (groups u) as [|g0 gs0] eqn:Hg.
-  - splits; auto; [rewrite Hg; auto|]. unfold loop_post. rewrite Hg; simpl; auto.
+  - splits; auto; [rewrite Hg; auto|]. unfold loop_post, loop_post_n. rewrite Hg; simpl; auto.
   - rewrite <- Hg in *.
     pose proof (@fu_loop_spec mrg (length (groups u)) u t w Hw Hok) as H.
     destruct (fu_loop P mrg (length (groups u)) u t w) as [[u' sp] w'].
@@ -369,4 +382,46 @@ Proof.
     + contradiction.
 Qed.
 
+Lemma fu_push_fold_spec mrg l u w :
+  winv (cnt (blks (groups u))) None w -> fu_ok mrg u ->
+  let '(u', w') := fold_left (fun uw c => fu_push P mrg (fst uw) c (snd uw)) l (u, w) in
+  winv (cnt (blks (groups u'))) None w' /\ fu_ok mrg u' /\ total (groups u') = total (groups u) + length l.
+Proof.
+  revert u w. induction l as [|c l IH]; intros u w Hw Hok; simpl.
+  - splits; auto.
+  - pose proof (@fu_push_spec mrg u c w Hw Hok) as H.
+    destruct (fu_push P mrg u c w) as [u1 w1]. destruct H as (A & B & C & D).
+    specialize (IH u1 w1 A B). simpl.
+    destruct (fold_left (fun uw c => fu_push P mrg (fst uw) c (snd uw)) l (u1, w1)) as [u' w'].
+    destruct IH as (I1 & I2 & I3). splits; auto. lia.
+Qed.
+
+Lemma fu_from_list_spec mrg l w :
+  winv (cnt []) None w ->
+  let '(u, w') := fu_from_list P mrg l w in
+  winv (cnt (blks (groups u))) None w' /\ fu_ok mrg u /\ total (groups u) = length l.
+Proof.
+  intros Hw. unfold fu_from_list.
+  assert (H0 : let '(u0, w0) := (if mrg then (fu_empty, w) else fu_with_capacity (Nat.max (length l) (pMinCap P)) w) in
+               winv (cnt (blks (groups u0))) None w0 /\ fu_ok mrg u0 /\ total (groups u0) = 0).
+  { destruct mrg.
+    - splits; auto. apply fu_empty_ok.
+    - apply fu_with_capacity_spec; auto. }
+  destruct (if mrg then (fu_empty, w) else fu_with_capacity (Nat.max (length l) (pMinCap P)) w) as [u0 w0].
+  destruct H0 as (A & B & C).
+  pose proof (@fu_push_fold_spec mrg l u0 w0 A B) as H.
+  destruct (fold_left (fun uw c => fu_push P mrg (fst uw) c (snd uw)) l (u0, w0)) as [u' w'].
+  destruct H as (I1 & I2 & I3). splits; auto. lia.
+Qed.
+
 End WithParams.
+
+Lemma winv_fu_drop_groups gs cur w :
+  winv (cnt (blks gs)) cur w -> winv (cnt []) cur (fold_left (fun w g => fub_drop g w) gs w).
+Proof.
+  revert w. induction gs as [|g gs IH]; simpl; intros w Hw; auto.
+  apply IH. apply winv_fub_drop. eapply winv_own_ext; [|exact Hw]. intros b. apply cnt_cons.
+Qed.
+
+Lemma winv_fu_drop u cur w : winv (cnt (blks (groups u))) cur w -> winv (cnt []) cur (fu_drop u w).
+Proof. apply winv_fu_drop_groups. Qed.
